@@ -112,7 +112,8 @@ static int send_rule_matches(const PRule& r, const SendQ& q, const BusModel& reg
     } else {
       int hld = holds(reg, q.receiver, r.dest);
       if (hld == 0) return 0;
-      if (hld == 2) res = -1;   // [U] "the owner of the given name": queued owners are not clearly covered
+      // [M] "the *owner* of the given name"; the send_destination_prefix paragraph says a prefix rule covers primary and queued owners
+      // and "works the same as if" separate send_destination rules had been written, so a queued owner is an owner here too
     }
   }
   if (!fds_gate(r, q.nfds)) return 0;
@@ -131,7 +132,7 @@ static int recv_rule_matches(const PRule& r, const RecvQ& q, const BusModel& reg
   int res = 1;
   if (!r.dest.empty() && !r.dest_star) {
     if (q.sender < 0) { if (r.dest != BUS_NAME) return 0; }
-    else { int hld = holds(reg, q.sender, r.dest); if (hld == 0) return 0; if (hld == 2) res = -1; }
+    else { int hld = holds(reg, q.sender, r.dest); if (hld == 0) return 0; }   // [M] same notion of owner as send_destination (one sentence covers both)
   }
   if (!fds_gate(r, q.nfds)) return 0;
   return res;
